@@ -99,6 +99,33 @@ var mutators = []struct{ Src, In string }{
 	{`[3,1,2] | sort, .`, `null`}, {`[[1],[2]] | add, .`, `null`}, {`{"a":[1]} | .a += [2], .`, `null`}, {`def c: {"x": [1, 2]}; (c | .x[0] = 9), c, (c | .x += [3]), c`, `null`}, {`def c: [1, [2, 3]]; (c | .[1] |= reverse), c, (c | add), c`, `null`},
 }
 
+// containers beyond the small-size thresholds (Go map buckets, slice growth steps)
+var (
+	bigArr = func() string {
+		xs := make([]string, 40)
+		for i := range xs {
+			xs[i] = fmt.Sprint((i * 37) % 41)
+		}
+		return "[" + strings.Join(xs, ",") + "]"
+	}()
+	bigObj = func() string {
+		xs := make([]string, 14)
+		for i := range xs {
+			xs[i] = fmt.Sprintf("%q:[%d,{\"z\":%d}]", string(rune('n'-i))+"k", i, i)
+		}
+		return "{" + strings.Join(xs, ",") + "}"
+	}()
+)
+
+func init() {
+	for _, src := range []string{`sort`, `reverse`, `unique`, `.[3:20]`, `.[3:20] | .[0] = 99`, `.[:5] + [0]`, `(.[:5] | . + [1,2]), .`, `[.[:5], .[30:]] | add`, `.[10:] = [1]`, `del(.[5:30])`, `map(. + 1)`, `group_by(. % 3)`, `.[] |= . + 1`, `[limit(20; .[])]`, `to_entries | map(.value)`, `[.[] | select(. > 20)]`, `.[39] = 1, .[40] = 1, .[45] = 1`, `.[:40] | .[40] = 1`, `flatten`, `tojson | fromjson`, `min, max, add`, `[.[1:], .[:1]] | add | length`} {
+		mutators = append(mutators, struct{ Src, In string }{src, bigArr})
+	}
+	for _, src := range []string{`keys`, `to_entries`, `with_entries(.value |= .[0])`, `map_values(.[1])`, `del(.ak, .bk)`, `.nk[1].z = 99`, `. + {"new": 1}`, `. * {"nk": {"q": 1}}`, `[.[]] | length`, `tojson`, `[paths] | length`, `del(.[] | select(.[0] > 5))`, `to_entries | from_entries`, `.. |= .`, `[.[] | .[1]] | add`, `walk(.)`, `pick(.nk, .ak)`, `tostream`, `add`, `keys_unsorted | sort`, `[to_entries[] | .key] | join(",")`} {
+		mutators = append(mutators, struct{ Src, In string }{src, bigObj})
+	}
+}
+
 const (
 	objShared  = `{"a":{"b":[1,2,{"c":3}],"q":{"r":1,"s":[]},"r":{"s":[1,2]},"x":{"b":5}},"k":[3,1,2],"s":"héllo","n":null,"z":{"y":{"x":{"w":[]}}}}`
 	numsShared = `[5,3,8,1,9,2,7,4,6,0]`
